@@ -633,6 +633,13 @@ class PyExec:
         ts = [t for _, t in vals]
         if all(isinstance(v, PBool) for v, _ in vals):
             return PBool(z3.And(*ts) if is_and else z3.Or(*ts))
+        if (not is_and and len(vals) == 2 and all(isinstance(v, (POpt, PRef)) for v, _ in vals)
+                and len({(v.ref.cls if isinstance(v, POpt) else v.cls) for v, _ in vals}) == 1):
+            # `a or b` on two (optional) references of one class: a unless it is None (objects of contract classes are truthy), else b
+            def parts(v):
+                return (v.is_none, v.ref.addr, v.ref.cls) if isinstance(v, POpt) else (z3.BoolVal(False), v.addr, v.cls)
+            (na, xa, cls), (nb, xb, _) = parts(vals[0][0]), parts(vals[1][0])
+            return POpt(z3.And(na, nb), PRef(cls, z3.If(na, xb, xa)))
         if not all(isinstance(v, (PBool, PStr, PInt)) or (isinstance(v, PAny) and not isinstance(v, POpaque)) for v, _ in vals):
             # operands with object truthiness (references, None, opaque values): only the truth value is modelled
             return PBool(z3.And(*ts) if is_and else z3.Or(*ts))
@@ -1547,6 +1554,10 @@ class PyExec:
                 raise OutOfSubset("subscript store on %s" % o.kind)
         elif isinstance(tgt, ast.Attribute):
             o = self.ev(st, tgt.value)
+            if isinstance(o, POpt):
+                # x.attr = v on an optional reference: AttributeError for None (an exception site), then the object's field
+                self.guard(st, "AttributeError.None", z3.Not(o.is_none), node)
+                o = o.ref
             if isinstance(o, PRef) and o.cls.startswith("obj:"):
                 self.field_kind(o.cls, tgt.attr)
                 st.heap.set("fld." + tgt.attr, z3.Store(st.heap.get("fld." + tgt.attr), o.addr, ival(v)))
